@@ -1158,18 +1158,22 @@ def ref_eval(t, env, negpow, notes):
     if k == 'prod':
         if any(o == '/' and not isinstance(v[1], list) and v[1].iszero() for o, v in kids):
             return ANY                            # a zero divisor may raise anything (outside the property)
-        operands = [first[1]] + [v[1] for _, v in kids]
-        if all((not isinstance(x, list)) or is_vec(x) for x in operands):
-            nvec = (1 if is_vec(first[1]) else 0) + sum(1 for o, v in kids if o == '*' and is_vec(v[1]))
-            if nvec >= 3:
-                notes.append('triple')
-                return ERR                        # chained product of three or more vectors
     acc = first[1]
+    dot_happened = False
     for o, v in kids:
         op = {'+': 'Add', '-': 'Sub', '*': 'Mul', '/': 'Div'}[o]
+        if k == 'prod' and o == '*' and is_vec(v[1]):
+            # chained products of three or more vectors: once two vectors of the chain have been contracted with each other (a
+            # vector.vector step, whatever numbers and matrices stand between and around them), a further vector factor makes the
+            # chain ambiguous -- (a.b)(M c) is not a (b.(M c)) -- and must be refused
+            if dot_happened:
+                notes.append('triple')
+                return ERR
+            if is_vec(acc):
+                dot_happened = True
         r = ref_binop(op, acc, v[1], negpow, None, notes)
         if r in (ERR, ANY):
-            # the implementation may refuse earlier (triple-vector flag) or here; later operands cannot un-raise it
+            # later operands cannot un-raise it
             return r
         acc = r[1]
     return ('val', acc)
@@ -1527,21 +1531,21 @@ def formula_level(ctx, res, rng, rec):
                 n_neg += 1
     # 3. product chains of numbers, vectors and a few matrices (the triple-vector rule)
     n_chain = 0
-    for _ in range(500 if not thorough else 2500):
+    for _ in range(700 if not thorough else 3000):
         g = FormulaGen(rng)
         length = rng.randint(2, 6)
         n = rng.choice([2, 3])
 
         def operand():
             r = rng.random()
-            if r < 0.55:
-                return g.value_atom((n if rng.random() < 0.9 else n + 1,))
-            if r < 0.8:
+            if r < 0.5:
+                return g.value_atom((n if rng.random() < 0.93 else n + 1,))
+            if r < 0.68:
                 return g.value_atom(())
-            if r < 0.9:
+            if r < 0.88:
                 return g.value_atom((n, n))
             if r < 0.95:
-                return g.value_atom((n, 1))
+                return g.value_atom(rng.choice([(n, 1), (1, n), (n, n + 1)]))
             return ('par', ('prod', g.value_atom((n,)), [('*', g.value_atom((n,)))]))
         first = operand()
         rest = [(rng.choice(['*', '*', '*', '*', '/']), operand()) for _ in range(length - 1)]
@@ -1777,7 +1781,8 @@ def grader_case(scenario, cfg, inp):
     before = MathArray._negative_powers
     st, out = core.guarded(call, inp)
     after = MathArray._negative_powers
-    MathArray._negative_powers = MathArray._default_negative_powers
+    if after != before:
+        MathArray._negative_powers = before      # reported by the caller (switch-leaked); do not let it cascade
     return st, out, before, after, probe.seen
 
 
@@ -1847,6 +1852,96 @@ def grader_level(ctx, res, rng):
 
 
 # ------------------------------------------------------------------------------------------------------------------
+# perturb-then-probe: the outcome of a fixed set of probes after the whole varied batch above (every operator form, both switch
+# positions, error-raising inputs, graders of several configurations, nested uses) against the same probes in a fresh interpreter
+# ------------------------------------------------------------------------------------------------------------------
+def canon(st, out):
+    if st == 'ret':
+        v = from_impl(out)
+        return 'ret ' + (repr(jsonable(v)) if v is not None else repr(out)[:200])
+    if st == 'exc':
+        return 'exc %s: %s' % (type(out).__name__, str(out)[:200])
+    return st
+
+
+FORMULA_PROBES = ['[1,2]+[3,4]', '[1,2]*[3,4]*[5,6]', '([1,2]*[3,4])*[5,6]', '[[1,2],[3,4]]^-1', '[[3,3],[5,5]]^-1', '[1,[2,3]]',
+                  '2*[1,2]-[1,2]/2', '[[1,2],[3,4]]*[1,2]', '[1,2]*[[1,2],[3,4]]*[1,2]', 'sqrt(4)+[1,2]', '[1,2]^2', '2^[1,2]',
+                  '[1,2]*[3,4]*[[1,2],[3,4]]*[1,2]', 'norm([3,4])*[1,2]', '0+[1,2]', '[1,2]/[1,2]']
+
+
+def probe_outcomes():
+    """name -> canonical outcome string, for a fixed list of operator, formula and grader probes (no randomness in the verdicts)"""
+    from mitxgraders.helpers.calc.math_array import MathArray
+    from mitxgraders.helpers.calc.expressions import evaluator
+    out = {}
+    m = ('arr', 'i', (2, 2), [1, 2, 3, 4])
+    sing = ('arr', 'i', (2, 2), [3, 3, 5, 5])
+    v = ('arr', 'f', (2,), [1.0, -2.0])
+    ops = [('Add', v, v), ('Add', v, ('num', 'i', 1)), ('Sub', ('num', 'f', 0.0), v), ('Mul', m, v), ('Mul', v, m), ('Mul', v, v),
+           ('Div', m, ('num', 'i', 2)), ('Div', ('num', 'i', 2), m), ('Pow', m, ('num', 'i', 2)), ('Pow', m, ('num', 'i', -1)),
+           ('Pow', m, ('num', 'f', -2.0)), ('Pow', sing, ('num', 'i', -1)), ('Pow', m, ('num', 'f', 0.5)), ('Pow', v, ('num', 'i', 2)),
+           ('Mul', ('arr', 'i', (1, 2), [1, 2]), ('arr', 'i', (2, 1), [3, 4])), ('Add', m, ('arr', 'i', (2, 3), [1, 2, 3, 4, 5, 6]))]
+    # phase 1: probes that open no switch block and build no grader, so that in the fresh interpreter they see pristine state
+    out['class-flag'] = repr((MathArray._negative_powers, MathArray._default_negative_powers))
+    for k, (op, a, b) in enumerate(ops):
+        for fname, fn in call_forms(op, a, b):
+            out['op%d:%s:%s' % (k, op, fname)] = canon(*core.guarded(fn, to_impl(a), to_impl(b)))
+    table = function_table('matrix')
+    for f in FORMULA_PROBES:
+        out['formula:' + f] = canon(*core.guarded(lambda: evaluator(f, variables={'i': 1j}, functions=table, suffixes={})[0]))
+    # phase 2: the same under the disabled switch, then graders
+    for k, (op, a, b) in enumerate(ops):
+        if op == 'Pow':
+            def disabled(a=a, b=b):
+                with MathArray.enable_negative_powers(False):
+                    return to_impl(a) ** to_impl(b)
+            out['op%d:Pow:disabled' % k] = canon(*core.guarded(disabled))
+    for f in FORMULA_PROBES:
+        def off(f=f):
+            with MathArray.enable_negative_powers(False):
+                return evaluator(f, variables={'i': 1j}, functions=table, suffixes={})[0]
+        out['formula-disabled:' + f] = canon(*core.guarded(off))
+    for scenario in ('plain', 'dependent_sampler', 'listgrader_sibling_box'):
+        for inp in ('A^2*A^-1', 'A', 'probe(A)', 'A+1', 'A*B*A^-1'):
+            st, res_, before, after, seen = grader_case(scenario, {}, inp)
+            out['grader:%s:%s' % (scenario, inp)] = '%s %s flag %r->%r seen %r' % (
+                st, (repr(res_) if st == 'ret' else '%s: %s' % (type(res_).__name__, res_))[:200], before, after, seen)
+    for answer, inp in [('v+[2,2,2]', 'sqrt(4)+v'), ('v+[2,2,2]', 'v+[2,2,2]'), ('M', 'M^-1*M*M')]:
+        st, res_ = scalar_grader_case(answer, inp)
+        out['grader-scalar:%s:%s' % (answer, inp)] = '%s %s' % (st, (repr(res_) if st == 'ret' else '%s: %s' % (type(res_).__name__, res_))[:200])
+    out['class-flag-end'] = repr((MathArray._negative_powers, MathArray._default_negative_powers))
+    return out
+
+
+def fresh_probe_outcomes():
+    """the same probes in a fresh interpreter on the same tree"""
+    import json
+    import subprocess
+    env = dict(__import__('os').environ, PYTHONPATH='%s:%s' % (core.REPO, core.VERIF), PYTHONHASHSEED='0')
+    code = 'import json; from harness.props import c14; print("@@" + json.dumps(c14.probe_outcomes()))'
+    p = subprocess.run(['/venv/bin/python', '-B', '-c', code], cwd=core.VERIF, env=env, stdout=subprocess.PIPE,
+                       stderr=subprocess.PIPE, text=True, timeout=120)
+    line = [ln for ln in p.stdout.splitlines() if ln.startswith('@@')]
+    if p.returncode != 0 or not line:
+        raise RuntimeError('fresh interpreter failed: %s' % p.stderr[-500:])
+    return json.loads(line[-1][2:])
+
+
+def history_level(res):
+    after = probe_outcomes()
+    fresh = fresh_probe_outcomes()
+    res.oracle_evals += len(after)
+    res.distribution['history_probes'] = len(after)
+    for name in sorted(set(after) | set(fresh)):
+        if after.get(name) != fresh.get(name):
+            res.witnesses.append({'key': 'history:' + name, 'kind': 'history', 'code': 'history-dependence', 'probe': name,
+                                  'fresh': fresh.get(name), 'after_batch': after.get(name),
+                                  'what': 'probe %s gives %r in a fresh interpreter but %r after the batch of operator, formula and '
+                                          'grader cases of this run' % (name, fresh.get(name), after.get(name))})
+        res.nontrivial.add(('history', name))
+
+
+# ------------------------------------------------------------------------------------------------------------------
 def run(ctx):
     res = core.Result()
     rng = random.Random(7919 * ctx['seed'] + 14)
@@ -1873,6 +1968,7 @@ def run(ctx):
     for i in failing:
         res.disagreements.append(metas[i])
     grader_level(ctx, res, rng)
+    history_level(res)
     res.distribution['witness_codes'] = {}
     for w in res.witnesses:
         res.distribution['witness_codes'][w['code']] = res.distribution['witness_codes'].get(w['code'], 0) + 1
@@ -1936,6 +2032,19 @@ def replay(w):
         hit = [b for b in bad if b[0] == w.get('code')]
         return bool(hit), 'MatrixGrader(negative_powers=False, %r) [%s] on %r -> %s %r; switch seen by user function: %r; verdict: %s' % (
             w['config'], w['scenario'], w['input'], st, repr(out)[:200], seen, hit or 'satisfied')
+    if kind == 'history':
+        # re-create the history (the varied batch, model evaluation skipped), then probe against a fresh interpreter
+        res = core.Result()
+        ctx = {'tier': 'quick', 'seed': 0, 'escalate': False, 'model_built': False}
+        rng = random.Random(7919 * ctx['seed'] + 14)
+        with InvRecorder() as rec:
+            op_level(ctx, res, rng, rec)
+            formula_level(ctx, res, rng, rec)
+        grader_level(ctx, res, rng)
+        res.witnesses = []
+        history_level(res)
+        hit = [x for x in res.witnesses if x['probe'] == w.get('probe')]
+        return bool(hit), 'probe %s: %s' % (w.get('probe'), hit[0]['what'] if hit else 'same outcome in a fresh interpreter and after the batch')
     if kind == 'grader-scalar':
         st, out = scalar_grader_case(w['answer'], w['input'])
         bad = not (st == 'exc' and student_facing(out))
